@@ -21,7 +21,7 @@ REQUIRED_COUNTERS = ["sessions", "close_injected", "state_samples_after_close", 
 SHARD_TIMEOUT = {"quick": 400, "thorough": 3000}
 
 SHAPES = ("plain", "refusing", "slow_transport", "fault_reconnect", "slow_receive_cb", "send", "after_close_calls",
-          "send_fault_read_silent", "send_write_error", "double_close", "double_connect", "never_connected", "callbacks_replaced", "send_peer_stopped_reading")
+          "send_fault_read_silent", "send_write_error", "double_close", "double_connect", "never_connected", "callbacks_replaced", "send_peer_stopped_reading", "busy_reply_while_closing")
 
 
 def shards(tier, seed):
@@ -30,7 +30,7 @@ def shards(tier, seed):
         # close() called from inside the status callback when the first loss is reported
         out.append({"name": f"{kind}-fault_reconnect-close_on_disconnected", "kind": kind, "shape": "fault_reconnect", "scb": "close_on_disconnected", "tier": tier, "seed": seed})
         for shape in SHAPES:
-            for scb in (("ok",) if tier == "quick" and shape not in ("plain", "slow_transport", "fault_reconnect", "send_write_error", "send_fault_read_silent", "double_close") else ("ok", "raise", "slow", "slow_connected", "slow_closed")):
+            for scb in (("ok",) if tier == "quick" and shape not in ("plain", "slow_transport", "fault_reconnect", "send_write_error", "send_fault_read_silent", "double_close", "busy_reply_while_closing") else ("ok", "raise", "slow", "slow_connected", "slow_closed")):
                 out.append({"name": f"{kind}-{shape}-{scb}", "kind": kind, "shape": shape, "scb": scb, "tier": tier, "seed": seed})
     return out
 
@@ -48,6 +48,14 @@ def session(kind, shape, step, scb, bystander=False, cb_style="method"):
         def do_close():
             info["close_step"] = loop.steps
             sim.spawn("close")
+            if shape == "busy_reply_while_closing" and kind == "ebyte":
+                # the gateway's 'no free slot' answer arrives while close() is under way (possibly parked in a slow callback)
+                def busy():
+                    for c_ in sim.conns:
+                        if not c_.lost and not c_.closing:
+                            c_.feed(b"Sorry,Limited")
+                loop.call_later(0.02, busy)
+                loop.at_step(loop.steps + 1, busy)
             if shape == "double_close":
                 # a second close() while the first one is still running (one and three steps later)
                 loop.at_step(loop.steps + 1, lambda: sim.spawn("close"))
